@@ -506,3 +506,143 @@ func (c *Ctx) ruleWillHandOff(id string) {
 	}
 	ru.Check(bad == "" && n > 0, "will rows of "+c.fname(disp), c.whereF(disp), fmt.Sprintf("%d path(s) with a nil writer, each hands the message off once and registers nothing", n), bad+map[bool]string{true: "", false: "the PUBLISH arm never decides whether there is a connection to answer on"}[n > 0 || bad != ""])
 }
+
+// ---- C11-R9: a keep-alive of 0 is not a deadline of "now" ----
+
+// ruleKeepAliveZero: the keep-alive extension arms a deadline proportional to the negotiated interval only where the
+// interval is known to be non-zero; a zero interval means "no keep-alive" (MQTT 3.1.1 §3.1.2.10), not "expired".
+func (c *Ctx) ruleKeepAliveZero(id string) {
+	ru := c.R.Rule(id, "Session.ExtendDeadline arms the connection deadline now + k·keep-alive only under a test that the keep-alive interval is non-zero: with keep-alive 0 (mechanism switched off by the client) the product is 0 and the deadline would be 'now', ending a session that is within its allowance", "E1 paths of the deadline extension + E3 provenance of the deadline's offset", 1)
+	ext := c.cm(ru, "wasp/sessions", "Session", "ExtendDeadline")
+	if ext == nil {
+		return
+	}
+	f := c.fn(ext)
+	if !ru.Anchor(f != nil && len(f.Blocks) > 0, "body of Session.ExtendDeadline") {
+		return
+	}
+	c.R.Fn(c.fname(f))
+	paths, err := c.pathsInlinedPkg(f, core.PathOpts{}, nil)
+	if err != nil {
+		ru.Undecided("deadline armed by "+c.fname(f), c.whereF(f), err.Error())
+		return
+	}
+	ru.Evals(len(paths))
+	// the keep-alive interval: an integer field of the session that the deadline's offset depends on
+	intervalField := func(v ssa.Value) *ssa.FieldAddr {
+		var found *ssa.FieldAddr
+		depReaches(v, func(x ssa.Value) bool {
+			fa, ok := x.(*ssa.FieldAddr)
+			if !ok || !isNamed(fa.X.Type(), "wasp/sessions", "Session") {
+				return false
+			}
+			if b, isB := derefT(fa.Type()).Underlying().(*types.Basic); isB && b.Info()&types.IsInteger != 0 {
+				found = fa
+				return true
+			}
+			return false
+		})
+		return found
+	}
+	bad, n := "", 0
+	for _, p := range paths {
+		for _, pc := range p.Calls() {
+			if pc.Obj == nil || pc.Obj.Name() != "SetDeadline" && pc.Obj.Name() != "SetReadDeadline" {
+				continue
+			}
+			args := pc.Args()
+			if len(args) != 1 {
+				continue
+			}
+			fa := intervalField(args[0])
+			if fa == nil {
+				continue // not derived from the interval (e.g. the zero time: deadline cleared)
+			}
+			n++
+			// some decision before the call establishes interval != 0 (or > 0)
+			guarded := false
+			for _, d := range decisions(p) {
+				if d.Seq > pc.Seq {
+					break
+				}
+				bo, ok := d.Cond.(*ssa.BinOp)
+				if !ok {
+					continue
+				}
+				for _, pair := range [][2]ssa.Value{{bo.X, bo.Y}, {bo.Y, bo.X}} {
+					k, isK := constInt(pair[1])
+					if !isK || k != 0 {
+						continue
+					}
+					ifa, isF := isLoadOfFieldIdx(pair[0], fa.Field)
+					if !isF || !isNamed(ifa.X.Type(), "wasp/sessions", "Session") {
+						continue
+					}
+					op := bo.Op
+					if pair[0] == bo.Y {
+						op = map[token.Token]token.Token{token.LSS: token.GTR, token.GTR: token.LSS, token.LEQ: token.GEQ, token.GEQ: token.LEQ, token.EQL: token.EQL, token.NEQ: token.NEQ}[op]
+					}
+					// value of (interval OP 0) on this path is d.Val: does it exclude interval == 0?
+					if holds(op, 0, 0) != d.Val {
+						guarded = true
+					}
+				}
+			}
+			if !guarded {
+				bad = "the deadline is set to now + k·" + fieldNameOf(fa.X.Type(), fa.Field) + " without excluding a zero interval (" + c.whereI(pc.Instr) + "): a client that connects with keep-alive 0 is cut at its next read"
+			}
+		}
+	}
+	ru.Check(bad == "" && n > 0, "deadline armed by "+c.fname(f), c.whereF(f), fmt.Sprintf("%d arming call(s), each under interval != 0", n), bad+map[bool]string{true: "", false: "no deadline derived from the keep-alive interval is armed"}[n > 0 || bad != ""])
+}
+
+// isLoadOfFieldIdx: v is (conversions of) a load of the field with index idx of some struct.
+func isLoadOfFieldIdx(v ssa.Value, idx int) (*ssa.FieldAddr, bool) {
+	ld, ok := conversionsOnly(v).(*ssa.UnOp)
+	if !ok || ld.Op != token.MUL {
+		return nil, false
+	}
+	fa, ok := ld.X.(*ssa.FieldAddr)
+	if !ok || fa.Field != idx {
+		return nil, false
+	}
+	return fa, true
+}
+
+// ---- C14-R6: a subscription is attributed to the peer it was created for ----
+
+func (c *Ctx) ruleSubscriptionPeer(id string) {
+	ru := c.R.Rule(id, "SubscriptionsState.CreateFrom records the subscription under the peer it is given: the Peer of the entry stored and broadcast derives from the peer parameter (a subscription attributed to the wrong node sends matching publishes to a log whose node does not host the session; the hosting node never receives them)", "E3 provenance of the stored entry's Peer field", 1)
+	cf := c.implOf(ru, "wasp/distributed", "SubscriptionsState", "CreateFrom")
+	if cf == nil {
+		return
+	}
+	c.R.Fn(c.fname(cf))
+	pidx := paramIndexOfType(cf, "uint64")
+	if !ru.Anchor(pidx >= 0, "the peer parameter of CreateFrom") {
+		return
+	}
+	n, bad := 0, ""
+	for _, g := range c.funcsDeepStop(cf, 2, func(g *ssa.Function) bool { return g.Pkg != cf.Pkg }) {
+		for _, b := range g.Blocks {
+			for _, in := range b.Instrs {
+				st, ok := in.(*ssa.Store)
+				if !ok {
+					continue
+				}
+				fa, ok := st.Addr.(*ssa.FieldAddr)
+				if !ok || fieldNameOf(fa.X.Type(), fa.Field) != "Peer" || !isNamed(fa.X.Type(), "wasp/api", "Subscription") {
+					continue
+				}
+				if _, isLit := core.Strip(fa.X).(*ssa.Alloc); !isLit {
+					continue
+				}
+				n++
+				if !reachesParam(st.Val, cf, pidx) {
+					bad = "the entry's Peer is " + short(core.Term(st.Val), 60) + ", not the peer given to CreateFrom (" + c.whereI(st) + ")"
+				}
+			}
+		}
+	}
+	ru.Check(bad == "" && n > 0, "Peer of the entry created by "+c.fname(cf), c.whereF(cf), "taken from the peer parameter", bad+map[bool]string{true: "", false: "no Subscription literal with a Peer is built"}[n > 0 || bad != ""])
+}
